@@ -274,6 +274,19 @@ func (r *rangeCtx) isStart(f *core.Func, e ast.Expr, depth int) bool {
 				}
 			}
 		}
+		// a field of a small struct that a helper returns (rows := w.exchangeTable(..); rows.start): what every return
+		// of the helper gives for that field
+		if cal, vals := structResultField(m, f, x); cal != nil {
+			all := len(vals) > 0
+			for _, v := range vals {
+				if !r.isStart(cal, v, depth+1) {
+					all = false
+				}
+			}
+			if all {
+				return true
+			}
+		}
 		if id, ok := x.(*ast.Ident); ok {
 			for fn := f; fn != nil; fn = fn.Parent {
 				if call, k := tupleSource(m, fn, id); call != nil {
@@ -318,6 +331,17 @@ func (r *rangeCtx) isCount(f *core.Func, e ast.Expr, depth int) bool {
 		}
 		if sel, ok := x.(*ast.SelectorExpr); ok {
 			if k := fieldKeyOf(m, sel); k != "" && r.lenField[k] {
+				return true
+			}
+		}
+		if cal, vals := structResultField(m, f, x); cal != nil {
+			all := len(vals) > 0
+			for _, v := range vals {
+				if !r.isCount(cal, v, depth+1) {
+					all = false
+				}
+			}
+			if all {
 				return true
 			}
 		}
@@ -795,4 +819,64 @@ func exprOrZero(m *core.Model, e ast.Expr) string {
 		return "0"
 	}
 	return m.ExprString(e)
+}
+
+// structResultField: x is `v.fld` (or `call(..).fld`) where v is a local whose only definition is a static call of a
+// helper with a single struct result; returns the helper and, for each of its return statements, the value it gives
+// to that field (nil if x is not of that form or some return is not a recognisable construction).
+func structResultField(m *core.Model, f *core.Func, x ast.Expr) (*core.Func, []ast.Expr) {
+	sel, ok := ast.Unparen(x).(*ast.SelectorExpr)
+	if !ok {
+		return nil, nil
+	}
+	fld := m.FieldOf(sel)
+	if fld == nil {
+		return nil, nil
+	}
+	key := m.FieldKey(fld)
+	var call *ast.CallExpr
+	switch b := ast.Unparen(sel.X).(type) {
+	case *ast.CallExpr:
+		call = b
+	case *ast.Ident:
+		v, ok := m.Info.ObjectOf(b).(*types.Var)
+		if !ok || v.IsField() {
+			return nil, nil
+		}
+		for fn := f; fn != nil && call == nil; fn = fn.Parent {
+			ds := localDefsOf(m, fn, v)
+			if len(ds) == 1 {
+				call, _ = ast.Unparen(ds[0]).(*ast.CallExpr)
+			}
+		}
+	}
+	if call == nil {
+		return nil, nil
+	}
+	k, cal, _ := m.Callee(call)
+	if k != core.CallStatic || cal == nil || cal.Body == nil || cal.Sig == nil || cal.Sig.Results().Len() != 1 {
+		return nil, nil
+	}
+	if _, isStruct := cal.Sig.Results().At(0).Type().Underlying().(*types.Struct); !isStruct {
+		return nil, nil
+	}
+	var vals []ast.Expr
+	okAll := true
+	core.InspectNoLits(cal.Body, func(n ast.Node) bool {
+		rs, isR := n.(*ast.ReturnStmt)
+		if !isR || len(rs.Results) != 1 {
+			return true
+		}
+		fields := valueFields(m, cal, rs.Results[0])
+		if v, has := fields[key]; has {
+			vals = append(vals, v)
+		} else {
+			okAll = false
+		}
+		return true
+	})
+	if !okAll {
+		return nil, nil
+	}
+	return cal, vals
 }
